@@ -33,7 +33,8 @@ ShapeDef ==
     c1po |-> [nbPub |-> 2, bound |-> <<TRUE, TRUE>>,  nbCommit |-> 1, cpub |-> <<{2}>>],
     c2   |-> [nbPub |-> 2, bound |-> <<TRUE, TRUE>>,  nbCommit |-> 2, cpub |-> <<{}, {2}>>],
     c2i  |-> [nbPub |-> 1, bound |-> <<TRUE>>,        nbCommit |-> 2, cpub |-> <<{}, {}>>],
-    c3   |-> [nbPub |-> 2, bound |-> <<TRUE, TRUE>>,  nbCommit |-> 3, cpub |-> <<{2}, {}, {1}>>] ]
+    c3   |-> [nbPub |-> 2, bound |-> <<TRUE, TRUE>>,  nbCommit |-> 3, cpub |-> <<{2}, {}, {1}>>],
+    c3r  |-> [nbPub |-> 2, bound |-> <<TRUE, TRUE>>,  nbCommit |-> 3, cpub |-> <<{}, {}, {2}>>] ]
 
 G1Classes == {"other", "inf", "neg", "rand", "vkel", "offsub"}
 G2Classes == {"other", "inf", "neg", "rand", "vkel", "offsub"}
